@@ -21,31 +21,36 @@ import (
 // pruneVisitor records (node identity, path) for each Visit and prunes the
 // nodes whose preorder index (in visit order) is in the prune set.
 type walkLog struct {
-	nodes []ast.Node
-	paths []string
-	many  int
-	prune func(n ast.Node) bool
+	nodes  []ast.Node
+	paths  []string
+	owners []int // for each visit: the visit whose returned visitor the callbacks leading here were made on (-1: the initial visitor)
+	many   int
+	prune  func(n ast.Node) bool
 }
 
+// pruneVisitor: every Visit returns a fresh visitor that knows which visit created it; Field/Index hand
+// that knowledge on. A child must be reached through the visitor its parent's Visit returned.
 type pruneVisitor struct {
-	log  *walkLog
-	path string
+	log   *walkLog
+	path  string
+	owner int
 }
 
 func (v *pruneVisitor) Visit(n ast.Node) ast.Visitor {
 	v.log.nodes = append(v.log.nodes, n)
 	v.log.paths = append(v.log.paths, v.path)
+	v.log.owners = append(v.log.owners, v.owner)
 	if v.log.prune != nil && v.log.prune(n) {
 		return nil
 	}
-	return &pruneVisitor{v.log, v.path}
+	return &pruneVisitor{v.log, v.path, len(v.log.nodes) - 1}
 }
 func (v *pruneVisitor) VisitMany(ns []ast.Node) ast.Visitor { v.log.many++; return v }
 func (v *pruneVisitor) Field(name string) ast.Visitor {
-	return &pruneVisitor{v.log, v.path + "." + name}
+	return &pruneVisitor{v.log, v.path + "." + name, v.owner}
 }
 func (v *pruneVisitor) Index(i int) ast.Visitor {
-	return &pruneVisitor{v.log, fmt.Sprintf("%s[%d]", v.path, i)}
+	return &pruneVisitor{v.log, fmt.Sprintf("%s[%d]", v.path, i), v.owner}
 }
 
 func sameNode(a, b ast.Node) bool {
@@ -93,10 +98,11 @@ func checkWalkOnce(root ast.Node, vs []oracle.Visit, pruned map[int]bool, prefix
 		i, ok := idx[rv.Pointer()]
 		return ok && pruned[i]
 	}
-	if pv, _ := explore.Try(func() { ast.Walk(root, &pruneVisitor{lg, prefix}) }); pv != nil {
+	if pv, _ := explore.Try(func() { ast.Walk(root, &pruneVisitor{lg, prefix, -1}) }); pv != nil {
 		return "", "" // C04
 	}
 	want := expectedWalk(vs, pruned)
+	visitPos := map[int]int{}
 	for k := 0; k < len(want) || k < len(lg.nodes); k++ {
 		if k >= len(lg.nodes) {
 			w := vs[want[k]]
@@ -116,6 +122,18 @@ func checkWalkOnce(root ast.Node, vs []oracle.Visit, pruned map[int]bool, prefix
 				par = oracle.TypeName(vs[w.Parent].Node)
 			}
 			return "C17/order-or-set/" + par + "." + fieldOfPath(w.Path), fmt.Sprintf("visit %d: Walk gives %s at %s, R5 expects %s at %s (pruned=%v)", k, oracle.TypeName(lg.nodes[k]), lg.paths[k], oracle.TypeName(w.Node), w.Path, keys(pruned))
+		}
+		wantOwner := -1
+		if w.Parent >= 0 {
+			wantOwner = visitPos[w.Parent]
+		}
+		visitPos[want[k]] = k
+		if lg.owners[k] != wantOwner {
+			par := "root"
+			if w.Parent >= 0 {
+				par = oracle.TypeName(vs[w.Parent].Node)
+			}
+			return "C17/visitor-chain/" + par, fmt.Sprintf("visit %d (%s at %s) was reached through the visitor returned by visit %d, not through the one its parent's Visit (visit %d) returned", k, oracle.TypeName(w.Node), w.Path, lg.owners[k], wantOwner)
 		}
 		if lg.paths[k] != prefix+w.Path {
 			par := "root"
@@ -277,7 +295,7 @@ func checkTraversal(c *explore.Ctx, roots []ast.Node, list bool, maxAll int, wit
 	if list {
 		// *Many variants: concatenation with [i] path prefixes
 		lg := &walkLog{}
-		if pv, _ := explore.Try(func() { ast.WalkMany(roots, &pruneVisitor{lg, ""}) }); pv == nil {
+		if pv, _ := explore.Try(func() { ast.WalkMany(roots, &pruneVisitor{lg, "", -1}) }); pv == nil {
 			var wantPaths []string
 			var wantNodes []ast.Node
 			for i, root := range roots {
@@ -596,7 +614,7 @@ func checkWalkFields(c *explore.Ctx, n ast.Node, desc string) {
 	}
 	lg := &walkLog{}
 	depth1 := func(p string) bool { return p != "" && strings.Count(p, ".") == 1 }
-	if pv, _ := explore.Try(func() { ast.Walk(n, &pruneVisitor{lg, ""}) }); pv != nil {
+	if pv, _ := explore.Try(func() { ast.Walk(n, &pruneVisitor{lg, "", -1}) }); pv != nil {
 		return
 	}
 	var got []string
